@@ -58,7 +58,7 @@ def run(unit, em):
     by_cls = {}
     for fn in unit.functions:
         if fn.cls and fn.body is not None:
-            by_cls.setdefault((fn.cls, fn.d.get('rc')), []).append(fn)
+            by_cls.setdefault((fn.cls, fn.d.get('rcd')), []).append(fn)
     for (cls, rc), fns in by_cls.items():
         # discover parallel pairs  B[e] = f(A[e])
         pairs = set()
